@@ -109,7 +109,7 @@ def h_try_from(d: Decl, props):
     else:
         body = (sym_setup(d) + anyval(d) +
                 '        let real = <%s as ::core::convert::TryFrom<%s>>::try_from(raw).map(|v| %s);\n' % (S, concrete_inner(d), bits(d, 'v.into_inner()')) +
-                '        assert!(real == Ok(%s), "try_from(raw) == Ok(new(raw))");\n' % bits(d, '%s::sanitize(raw)' % R))
+                '        match real { Ok(v) => assert!(v == %s, "try_from(raw) == Ok(new(raw))"), Err(_) => assert!(false, "infallible TryFrom returned Err") }\n' % bits(d, '%s::sanitize(raw)' % R))
     return Harness(d, 'TryFrom::try_from', props, body, clause='try_from(raw) == spec_try_new(raw)')
 
 
@@ -945,6 +945,8 @@ def float_decls(tier='quick'):
                       aux=[n5, n2], derives=FLOAT_DERIVES + ['Eq', 'Ord']))
         out.append(mk('flt_%s_san_nov' % t, 'float', t, sanitizers=[Sanitizer('with', s)], aux=[n5],
                       derives=['Debug', 'Clone', 'Copy', 'PartialEq', 'PartialOrd', 'AsRef', 'Deref', 'Borrow', 'Into', 'From']))
+        out.append(mk('flt_%s_san_nov_tf' % t, 'float', t, sanitizers=[Sanitizer('with', s)], aux=[n5],
+                      derives=['Debug', 'Clone', 'Copy', 'PartialEq', 'PartialOrd', 'AsRef', 'Deref', 'Borrow', 'Into', 'TryFrom']))
         out.append(mk('flt_%s_nothing' % t, 'float', t, derives=['Debug', 'Clone', 'Copy', 'PartialEq', 'PartialOrd', 'AsRef', 'Deref', 'Borrow', 'Into', 'From']))
         # literal bounds (go through the macro's own number parser)
         lits = [('zero', 'greater_or_equal', '0.0'), ('negzero', 'greater', '-0.0'), ('big', 'less', '1e30'), ('small', 'greater', '1e-30'),
